@@ -85,9 +85,12 @@ def run_tool(tools, tool, path, work, idx, _again=0):
 
 
 def _run_tool_once(tools, tool, path, work, idx):
-    args = [str(tools / tool)]
+    piped = tool.endswith("|pipe")          # the input arrives through a pipe (/dev/stdin): no size, no seeking
+    args = [str(tools / tool.split("|")[0])]
     if tool == "cdns-merge":
         args += ["-o", str(work / f"merge_out_{idx}"), str(path), str(path)]
+    elif piped:
+        args += ["/dev/stdin"]
     else:
         args += [str(path)]
 
@@ -97,7 +100,11 @@ def _run_tool_once(tools, tool, path, work, idx):
         resource.setrlimit(resource.RLIMIT_CORE, (0, 0))
 
     # the time is the CPU time of the child (user + system): wall time depends on the load of the machine
-    pr = subprocess.Popen(args, stdout=subprocess.DEVNULL, stderr=subprocess.PIPE, preexec_fn=limits, env=dict(os.environ, **ASAN_ENV))
+    feeder = subprocess.Popen(["cat", str(path)], stdout=subprocess.PIPE, stderr=subprocess.DEVNULL) if piped else None
+    pr = subprocess.Popen(args, stdin=feeder.stdout if piped else subprocess.DEVNULL, stdout=subprocess.DEVNULL, stderr=subprocess.PIPE,
+                          preexec_fn=limits, env=dict(os.environ, **ASAN_ENV))
+    if piped:
+        feeder.stdout.close()
     errbuf = []
     import threading
     rd = threading.Thread(target=lambda: errbuf.append(pr.stderr.read()), daemon=True)
@@ -115,6 +122,9 @@ def _run_tool_once(tools, tool, path, work, idx):
             break
         time.sleep(0.005)
     rd.join(5)
+    if feeder is not None:
+        feeder.kill()
+        feeder.wait()
     err = (errbuf[0] if errbuf else b"")[-2000:].decode("latin1")
     if status is None:
         rc = 124
@@ -270,11 +280,14 @@ def run(tier):
     tsel = paths if tier == "thorough" else paths[:: max(1, len(paths) // 120)] + [p for p in paths if p.name.startswith(("nest", "len_", "file_", "valid"))]
     with cf.ThreadPoolExecutor(nsh) as ex:
         futs = [ex.submit(run_tool, tools, t, p, work, k * 10 + j) for k, p in enumerate(tsel) for j, t in enumerate(TOOLS)]
+        # ... and the inspection tools reading the same inputs through a pipe
+        futs += [ex.submit(run_tool, tools, t + "|pipe", p, work, k * 10 + 5 + j) for k, p in enumerate(tsel[::2])
+                 for j, t in enumerate(["cdns-items", "cdns-itemcount"])]
         for f in futs:
             events.append(f.result())
     # valid files must be processed successfully by every entry point
     for ev in events:
-        if ev["input"].startswith("valid_") and ev["outcome"] == "err" and not ev["entry"].startswith("decoder:"):
+        if ev["input"].startswith("valid_") and ev["outcome"] == "err" and not ev["entry"].startswith(("decoder:", "decoder-fwd:")):
             ev["outcome"] = "rejected-valid-file"
     traces = [work / f"c03.{i}.ndjson" for i in range(4)]
     for i, t in enumerate(traces):
